@@ -614,6 +614,16 @@ func runConfig(c *core.Ctx, faults bool) {
 		}
 		// path based variant
 		fn := filepath.Join(scratch(), "dist.json")
+		// the state of the medium is part of the run: either no file, or an
+		// older, longer file at the same path that the export has to replace
+		os.Remove(fn)
+		if t.Bool(1, 2) {
+			old := append(append([]byte{}, data...), data...)
+			if err := os.WriteFile(fn, old, 0o644); err != nil {
+				panic(err)
+			}
+			c.Count("medium:older-longer-file-at-the-path")
+		}
 		if pv, site := core.Try(func() { err = st.ExportDistribution(fn, d.d) }); pv != nil || err != nil {
 			fail("round-trip", "ExportDistribution-failed", "ExportDistribution of %s: err=%v panic=%v %s", d.name, err, pv, site)
 		}
